@@ -603,7 +603,11 @@ pub fn family(name: &str, tier: Tier) -> Vec<Case> {
                 s.tls = Tls::S2n;
                 s.client.active_cids = Some(limit);
                 s.server.active_cids = Some(limit);
-                s.tasks = vec![vec![Op::OpenBidi, Op::Write(3000, 0), Op::Sleep(120), Op::Write(3000, 0), Op::Sleep(120), Op::Write(2000, 0), Op::Finish, Op::AwaitReader]];
+                // keep-alive every 300 ms: a client that has nothing to send when its NAT binding changes
+                // is only found again by the server once it transmits from the new address (nothing QUIC
+                // could do about a silent receiver), e.g. thorough [19D,25R]: rebind on the client's last ACK
+                s.client.keep_alive_ms = Some(300);
+                s.tasks = vec![vec![Op::KeepAlive(true), Op::OpenBidi, Op::Write(3000, 0), Op::Sleep(120), Op::Write(3000, 0), Op::Sleep(120), Op::Write(2000, 0), Op::Finish, Op::AwaitReader]];
                 s.horizon_ms = 120_000;
                 // RFC 9000 9: no migration before the handshake is confirmed - a client whose address changes
                 // mid-handshake legitimately fails to connect, so deviations start after the handshake
